@@ -41,7 +41,8 @@ Theorem C15_v6_key_only_v6_signatures : forall sv hashed, sig_admissible 6 sv ha
 Proof. exact v6_key_only_v6_signatures. Qed.
 Print Assumptions C15_v6_key_only_v6_signatures.
 
-Theorem C15_ops_matches_iff : forall a b, ops_matches a b = true <-> a = b.
+Theorem C15_ops_matches_iff : forall a b, ops_matches a b = true <->
+  o_typ a = o_typ b /\ o_hash a = o_hash b /\ o_alg a = o_alg b /\ o_salt a = o_salt b.
 Proof. exact ops_matches_iff. Qed.
 Print Assumptions C15_ops_matches_iff.
 
